@@ -8,6 +8,12 @@
 //!                            (a) a plain reference vector stepped alongside;
 //!                            (b) the page-index well-formedness predicate of C07 on the on-disk index
 //!   M <id> <tag>             distribution tags (write regimes, truncate kinds, …)
+//! Fault stream (`--faults`, C16 / C17): a generated commit history with retention 1..4 ending right
+//! after a commit, then ONE fault on the newest change file (ops xd:<stamp> delete, xt:<stamp>:<n>
+//! truncate to n bytes, xo:<stamp>:<off>:<value> overwrite the u64 at byte offset off), then rollback
+//! or rollback_before, then push + write.  After a fault only the unconditional clauses are checked:
+//! a refused rollback changes nothing, an accepted one lands on a state that was committed, no panic,
+//! no allocation request beyond the size of the input (crate::allocwatch).
 //! The `hints` of a write are the `bytes` fields of every page entry found on disk after it; they
 //! are the only thing the model cannot know (the real compressor's output lengths).
 use crate::rng::{Rng, hex};
@@ -213,6 +219,36 @@ struct Out {
     obs: Vec<String>,
     viol: Vec<String>,
     tags: Vec<String>,
+    /// the change file of the stamp the vector stands on when the history ends (fault families)
+    record: Option<(u64, Vec<u8>)>,
+}
+
+/// lengths beyond this are reachable only through a damaged record: the vector is not read any more
+const HUGE: usize = 1 << 24;
+
+/// layout of a compressed change record, exactly as base/rollback.rs `serialize_changes` writes it:
+/// stamp | prev_stored_len | stored_len | truncated count | truncated values | prev_pushed count |
+/// prev_pushed values | pushed count | pushed values.  Returns (name, byte offset, value) of every
+/// u64 field that can be located (a damaged count stops the walk).
+fn record_fields(b: &[u8], w: usize) -> Vec<(&'static str, usize, u64)> {
+    let rd = |o: usize| -> Option<u64> { b.get(o..o.checked_add(8)?).map(|s| u64::from_le_bytes(s.try_into().unwrap())) };
+    let mut f = vec![];
+    let mut pos = 0usize;
+    (|| -> Option<()> {
+        f.push(("stamp", pos, rd(pos)?)); pos += 8;
+        f.push(("prev_stored_len", pos, rd(pos)?)); pos += 8;
+        f.push(("stored_len", pos, rd(pos)?)); pos += 8;
+        let t = rd(pos)?; f.push(("truncated", pos, t)); pos = pos.checked_add(8)?.checked_add(w.checked_mul(t as usize)?)?;
+        let pp = rd(pos)?; f.push(("prev_pushed", pos, pp)); pos = pos.checked_add(8)?.checked_add(w.checked_mul(pp as usize)?)?;
+        let p = rd(pos)?; f.push(("pushed", pos, p));
+        Some(())
+    })();
+    f
+}
+
+fn value_kind(v: u64, old: u64) -> &'static str {
+    if v == 0 { "0" } else if v == 1 { "1" } else if v == 1 << 32 { "2^32" } else if v == 1 << 63 { "2^63" } else if v == u64::MAX { "max" }
+    else if v == old.wrapping_add(1) { "+1" } else if v == old.wrapping_sub(1) { "-1" } else { "other" }
 }
 
 #[derive(Clone, PartialEq)]
@@ -238,6 +274,9 @@ struct Reference {
     bare_recs: Vec<u64>,       // stamps of commits made after an effective bare write()/flush()
     prev_rb_ok: bool,          // a rollback succeeded since the last commit
     bare_write: bool,          // an effective write()/flush() outside a commit since `base`
+    ever: Vec<Snap>,           // every state that was committed in this history (the initial empty one included)
+    fault: Option<String>,     // a fault hit the change directory: label of it (the reference stack is void from here on)
+    fault_refused: bool,       // … and the rollback after it was refused
 }
 
 impl Reference {
@@ -311,6 +350,7 @@ where
     let mut rf = Reference {
         cur: vec![], stamp: 0, saved: vec![], saved_stamp: 0, reset_pending: false, reset_stale: false,
         base: Snap { c: vec![], st: 0 }, undo: vec![], limbo: vec![], uncommitted: false, bare_write: false, noop_bb_dirty: false, bare_taint: false, bare_recs: vec![], prev_rb_ok: false,
+        ever: vec![Snap { c: vec![], st: 0 }], fault: None, fault_refused: false,
     };
     let root = tmp.path().to_path_buf();
 
@@ -407,10 +447,63 @@ where
             let cur = u64::from(vec.as_ref().unwrap().stamp());
             if retention > 0 && st <= cur { cur + 1 } else { st }
         } else { 0 };
+        // ---- fault stream: what is known right before the step ------------------------------------
+        let is_fault = matches!(kind, "xd" | "xt" | "xo");
+        let region_name = vec.as_ref().unwrap().region_names()[0].clone();
+        let change_dir = root.join("changes").join(&region_name);
+        if is_fault {
+            let st: u64 = parts[1].parse().unwrap();
+            let label = match kind {
+                "xd" => "delete".to_string(),
+                "xt" => "truncate".to_string(),
+                _ => {
+                    let off: usize = parts[2].parse().unwrap();
+                    let val: u64 = parts[3].parse().unwrap();
+                    let b = std::fs::read(change_dir.join(st.to_string())).unwrap_or_default();
+                    match record_fields(&b, w).iter().find(|f| f.1 == off) {
+                        Some((name, _, old)) => format!("{}:{}", name, value_kind(val, *old)),
+                        None => "no-field:other".to_string(),
+                    }
+                }
+            };
+            rf.fault = Some(label);
+            out.tags.push(format!("fault:{kind}"));
+        }
+        // C16 / C17 on a damaged record: the state before the call, the size of everything the call may read
+        let faulted_rb = is_rb && rf.fault.is_some();
+        let pre: Option<(Vec<u8>, u64)> = if faulted_rb {
+            let v = vec.as_ref().unwrap();
+            Some((le_bytes(&v.collect()), u64::from(v.stamp())))
+        } else { None };
+        let input_size: usize = if faulted_rb {
+            let files: usize = std::fs::read_dir(&change_dir).map(|rd| rd.flatten().map(|e| e.metadata().map_or(0, |m| m.len() as usize)).sum()).unwrap_or(0);
+            let (dl, _, pg) = read_regions(db.as_ref().unwrap(), vec.as_ref().unwrap());
+            files + dl + pg.len()
+        } else { 0 };
+        if faulted_rb { crate::allocwatch::reset(); }
         // ---- execute on the real vector -----------------------------------------------------
         // Ok(Ok(b)) = returned Ok (b = write()'s result); Ok(Err(kind)) = returned an error
         let step = catch_unwind(AssertUnwindSafe(|| -> Result<bool, String> {
             match kind {
+                "xd" => {
+                    let st: u64 = parts[1].parse().unwrap();
+                    let _ = std::fs::remove_file(change_dir.join(st.to_string()));
+                    Ok(false)
+                }
+                "xt" => {
+                    let (st, n): (u64, usize) = (parts[1].parse().unwrap(), parts[2].parse().unwrap());
+                    let p = change_dir.join(st.to_string());
+                    if let Ok(mut b) = std::fs::read(&p) { b.truncate(n); std::fs::write(&p, b).unwrap(); }
+                    Ok(false)
+                }
+                "xo" => {
+                    let (st, off, val): (u64, usize, u64) = (parts[1].parse().unwrap(), parts[2].parse().unwrap(), parts[3].parse().unwrap());
+                    let p = change_dir.join(st.to_string());
+                    if let Ok(mut b) = std::fs::read(&p) {
+                        if off.checked_add(8).is_some_and(|e| e <= b.len()) { b[off..off + 8].copy_from_slice(&val.to_le_bytes()); std::fs::write(&p, b).unwrap(); }
+                    }
+                    Ok(false)
+                }
                 "p" => {
                     let vals: Vec<E> = parse_vspec::<E>(parts[1]);
                     let v = vec.as_mut().unwrap();
@@ -465,16 +558,34 @@ where
                 _ => Err("BadOp".into()),
             }
         }));
+        let alloc_req = if faulted_rb { crate::allocwatch::max() } else { 0 };
+        if faulted_rb {
+            // C17: the decode of a damaged record never asks for more memory than its input justifies
+            if alloc_req > 8 * input_size + (1 << 20) {
+                out.viol.push(format!("C17:decode-of-damaged-change-record-allocates-beyond-input-comp in {} at step {k} after fault {}: one request of {alloc_req} bytes, change files + regions = {input_size} bytes",
+                                      op_name(kind), rf.fault.as_deref().unwrap_or("-")));
+            }
+            out.tags.push(format!("decode-alloc:{}", if alloc_req <= input_size { "<=input" } else if alloc_req <= 8 * input_size + (1 << 20) { "<=8x+1M" } else { "BEYOND" }));
+        }
         let (res, errk): (bool, Option<String>) = match step {
             Err(_) => {
                 out.obs.push(format!("{k} panic"));
+                if faulted_rb {
+                    out.viol.push(format!("C17:decode-of-damaged-change-record-panics-comp in {} at step {k} after fault {}", op_name(kind), rf.fault.as_deref().unwrap_or("-")));
+                }
                 out.viol.push(format!("{}:panic-in-{} the call panicked at step {k}", if is_rb { "C16" } else { "C03" }, op_name(kind)));
+                if rf.fault_refused && !is_rb {
+                    out.viol.push(format!("C16:vector-unusable-after-refused-rollback-comp {} panicked at step {k} after a rollback of a damaged record was refused", op_name(kind)));
+                }
                 out.ops.push(tok_out);
                 break;
             }
             Ok(Err(e)) if !is_rb => {
                 out.obs.push(format!("{k} err:{e}"));
                 out.viol.push(format!("C03:error-{}-in-{} an operation of a valid history returned an error at step {k}", e, op_name(kind)));
+                if rf.fault_refused {
+                    out.viol.push(format!("C16:vector-unusable-after-refused-rollback-comp {} returned {e} at step {k} after a rollback of a damaged record was refused", op_name(kind)));
+                }
                 out.ops.push(tok_out);
                 break;
             }
@@ -483,13 +594,61 @@ where
         };
         let v = vec.as_ref().unwrap();
         let res_s = match &errk { Some(e) => format!("err:{e}"), None => (if res { "ok1" } else { "ok0" }).to_string() };
+        if faulted_rb {
+            // a length the data does not back can only come from a damaged record: the vector is not read any more
+            let (sl, pl, rl) = (v.stored_len(), v.pushed_len(), v.real_stored_len());
+            if sl.checked_add(pl).is_none_or(|l| l > HUGE) || sl > rl {
+                out.obs.push(format!("{k} {res_s} len=beyond"));
+                out.viol.push(format!("C16:{}-comp in {} at step {k} after fault {}: stored_len {sl} with {rl} values on disk, stamp {}",
+                                      if errk.is_some() { "failed-rollback-left-length-beyond-data" } else { "rollback-of-damaged-record-sets-length-beyond-data" },
+                                      op_name(kind), rf.fault.as_deref().unwrap_or("-"), u64::from(v.stamp())));
+                out.tags.push(format!("xo:{}:{}:BEYOND-DATA", rf.fault.as_deref().unwrap_or("-"), errk.as_deref().unwrap_or("ok")));
+                out.ops.push(tok_out);
+                break;
+            }
+        }
         let (line, bytes, pg, dl) = observe(k, &res_s, &rg, db.as_ref().unwrap(), v);
         out.obs.push(line);
         let pages = decode_index(&pg);
         let obs_stamp = u64::from(v.stamp());
 
         // ---- the reference steps ------------------------------------------------------------------
-        match kind {
+        let kind_ref = if faulted_rb { "faulted-rollback" } else { kind };
+        if faulted_rb {
+            let (pre_c, pre_st) = pre.as_ref().unwrap();
+            let label = rf.fault.clone().unwrap_or_default();
+            let unchanged = bytes == *pre_c && obs_stamp == *pre_st;
+            let committed = rf.ever.iter().any(|s| s.c == bytes && s.st == obs_stamp);
+            let effect = if unchanged { "unchanged" } else if committed { "committed-state" }
+                else if rf.ever.iter().any(|s| s.c == bytes) { "committed-contents-other-stamp" } else { "UNCOMMITTED" };
+            let r = errk.as_deref().unwrap_or("ok");
+            out.tags.push(format!("xo:{label}:{r}:{effect}"));
+            out.tags.push(format!("faulted-{}:{}", op_name(kind), if errk.is_some() { "refused" } else { "accepted" }));
+            match &errk {
+                Some(e) if kind == "b" && !unchanged => {
+                    out.viol.push(format!("C16:failed-rollback-changed-vector step {k}: rollback returned {e} after fault {label} but the contents or the stamp changed ({} values stamp {obs_stamp})", bytes.len() / w));
+                }
+                Some(e) if !unchanged && !committed => {
+                    // the damaged record is the first one rollback_before reads: a change means it was applied
+                    out.viol.push(format!("C16:rollback-of-damaged-record-accepted-comp in rollback-before at step {k} after fault {label}: the damaged record was applied, then the walk returned {e} and left {} values stamp {obs_stamp} ({effect}), a state that was never committed in this history", bytes.len() / w));
+                }
+                None if !unchanged && !committed => {
+                    out.viol.push(format!("C16:rollback-of-damaged-record-accepted-comp in {} at step {k} after fault {label}: returned Ok and left {} values stamp {obs_stamp} ({effect}), a state that was never committed in this history",
+                                          op_name(kind), bytes.len() / w));
+                }
+                _ => {}
+            }
+            rf.fault_refused = errk.is_some();
+            // the snapshot stack is void after a fault: follow the implementation
+            rf.cur = bytes.clone();
+            rf.stamp = obs_stamp;
+            rf.base = Snap { c: bytes.clone(), st: obs_stamp };
+            rf.undo.clear();
+            rf.limbo.clear();
+            rf.uncommitted = false;
+            rf.bare_write = false;
+        }
+        match kind_ref {
             "p" => {
                 let vals: Vec<E> = parse_vspec::<E>(parts[1]);
                 rf.cur.extend_from_slice(&le_bytes(&vals));
@@ -540,6 +699,7 @@ where
                 }
                 rf.stamp = st;
                 rf.base = Snap { c: rf.cur.clone(), st };
+                rf.ever.push(Snap { c: bytes.clone(), st: obs_stamp });
                 rf.limbo.clear();
                 rf.uncommitted = false;
                 rf.bare_write = false;
@@ -731,6 +891,12 @@ where
         }
         disk_pages = pages;
     }
+    if let Some(v) = vec.as_ref() {
+        let st = u64::from(v.stamp());
+        if let Ok(b) = std::fs::read(root.join("changes").join(&v.region_names()[0]).join(st.to_string())) {
+            out.record = Some((st, b));
+        }
+    }
 }
 
 fn op_name(kind: &str) -> &'static str {
@@ -745,6 +911,9 @@ fn op_name(kind: &str) -> &'static str {
         "b" => "rollback",
         "bb" => "rollback-before",
         "o" => "reopen",
+        "xd" => "fault-delete",
+        "xt" => "fault-truncate",
+        "xo" => "fault-overwrite",
         _ => "op",
     }
 }
@@ -1053,6 +1222,134 @@ fn gen_rollback_case(rng: &mut Rng) -> (String, String, u16, Vec<String>) {
     (fmt.to_string(), ty.to_string(), k, ops)
 }
 
+/// base histories of the fault stream (C16 / C17): retention 1..4, 1..k+2 commits with edits in
+/// between, ending right after a commit whose record has one of the shapes append-only / truncating /
+/// truncate-then-push / no-change / made after the rollback of a truncating commit (prev_pushed non-empty)
+fn gen_fault_base(rng: &mut Rng, ty: &str) -> (u16, Vec<String>) {
+    let w = width_of(ty);
+    let pp = PAGE_BYTES / w;
+    let k = rng.range(1, 4) as u16;
+    // 0: records of a few values (every byte offset is enumerated), 1: up to a quarter page, 2: page-crossing
+    let size_class = match rng.below(10) { 0..=6 => 0, 7 | 8 => 1, _ => 2 };
+    let classes: &[u8] = match ty { "f32" | "f64" => b"ffrqs", _ => b"erqss" };
+    let mut ops: Vec<String> = vec![];
+    let mut len = 0usize;
+    let mut committed_len = 0usize;
+    let mut stamp = 0u64;
+    let push = |rng: &mut Rng, ops: &mut Vec<String>, len: &mut usize, big_ok: bool| {
+        let room = pp - *len % pp;
+        let cnt = match size_class {
+            0 => rng.range(1, 6) as usize,
+            1 => match rng.below(4) { 0 => rng.range(1, 6) as usize, 1 => rng.range(7, 40) as usize, _ => rng.range(1, (pp / 4).max(2) as u64) as usize },
+            _ => match rng.below(5) { 0 => room, 1 => room + 1, 2 => pp, 3 => rng.range(1, 40) as usize, _ => rng.range(pp as u64 / 2, pp as u64 + pp as u64 / 2) as usize },
+        };
+        let cnt = if big_ok { cnt } else { cnt.min(6) };
+        let cnt = cnt.min((2 * pp + pp / 2).saturating_sub(*len)).max(1);
+        let cls = *rng.pick(classes) as char;
+        let seed = if cls == 'q' { rng.below(1000) } else { rng.next() >> 1 };
+        ops.push(format!("p:{cls}.{seed}.{cnt}"));
+        *len += cnt;
+    };
+    let ncommits = rng.range(1, k as u64 + 2) as usize;
+    for _ in 0..ncommits.saturating_sub(1) {
+        for _ in 0..rng.range(1, 3) {
+            if len > 0 && rng.chance(1, 5) {
+                let t = match rng.below(4) { 0 => 0, 1 => committed_len.saturating_sub(1 + rng.below(3) as usize), 2 => len - 1, _ => rng.below(len as u64 + 1) as usize };
+                ops.push(format!("t:{t}"));
+                len = len.min(t);
+            } else {
+                push(rng, &mut ops, &mut len, true);
+            }
+        }
+        stamp += 1 + rng.below(3);
+        ops.push(format!("s:{stamp}:-"));
+        committed_len = len;
+        if rng.chance(1, 10) { ops.push(if rng.chance(1, 3) { "o".into() } else { "i".into() }); }
+    }
+    // the commit whose record is damaged
+    match rng.below(20) {
+        0..=8 => push(rng, &mut ops, &mut len, true),                                  // append-only
+        9..=12 if len > 0 => {                                                          // truncating
+            let t = match rng.below(3) { 0 => len - 1, 1 => len.saturating_sub(1 + rng.below(5) as usize), _ => rng.below(len as u64) as usize };
+            ops.push(format!("t:{t}")); len = t;
+        }
+        13..=15 if len > 0 => {                                                         // truncate then push
+            let t = len.saturating_sub(1 + rng.below(4) as usize);
+            ops.push(format!("t:{t}")); len = t;
+            push(rng, &mut ops, &mut len, false);
+        }
+        16 => {}                                                                        // no change
+        17..=19 if len > 1 => {
+            // a truncating commit, rolled back (its values now ride in `pushed` and `prev_pushed`), then edited
+            let t = len.saturating_sub(1 + rng.below(4) as usize);
+            ops.push(format!("t:{t}"));
+            stamp += 1;
+            ops.push(format!("s:{stamp}:-"));
+            ops.push("b".into());
+            stamp -= 1; // the rollback returns to the previous commit (length `len`, unchanged here)
+            if rng.chance(2, 3) { push(rng, &mut ops, &mut len, false); }
+        }
+        _ => push(rng, &mut ops, &mut len, true),
+    }
+    stamp += 1 + rng.below(3);
+    ops.push(format!("s:{stamp}:-"));
+    (k, ops)
+}
+
+/// one family of the fault stream: the base history, then every single fault on the newest record
+fn run_family(fmt: &str, ty: &str, rng: &mut Rng, seed: u64, case_no: &mut u64, budget: usize) {
+    let (k, base) = gen_fault_base(rng, ty);
+    let mut out = Out { ops: vec![], obs: vec![], viol: vec![], tags: vec![], record: None };
+    let next_id = |case_no: &mut u64| { let id = format!("{}-{}", seed, *case_no); *case_no += 1; id };
+    if !dispatch(fmt, ty, k, &base, &mut out) {
+        emit(&next_id(case_no), fmt, ty, k, &base);
+        return;
+    }
+    // the executed history with the stamps the commits really used
+    let base: Vec<String> = out.ops.iter().map(|t| strip_hints(t)).collect();
+    let (stamp_now, bytes) = match (&out.record, out.viol.is_empty()) {
+        (Some(r), true) => r.clone(),
+        _ => {
+            // no record to damage (or the base history is itself a finding): the plain case
+            let mut ops = base.clone();
+            ops.push("b".into());
+            emit(&next_id(case_no), fmt, ty, k, &ops);
+            return;
+        }
+    };
+    let mut faults: Vec<String> = vec![format!("xd:{stamp_now}")];
+    for (_, off, val) in record_fields(&bytes, width_of(ty)) {
+        for v in [0u64, 1, 1 << 32, 1 << 63, u64::MAX, val.wrapping_add(1), val.wrapping_sub(1)] {
+            if v != val && !faults.contains(&format!("xo:{stamp_now}:{off}:{v}")) { faults.push(format!("xo:{stamp_now}:{off}:{v}")); }
+        }
+    }
+    // truncation at EVERY byte offset of a record of at most 512 bytes, 64 sampled offsets otherwise;
+    // a budget that cannot hold them all keeps an evenly spaced subset (the last offsets included)
+    let mut offs: Vec<usize> = if bytes.len() <= 512 { (0..bytes.len()).collect() }
+        else { let mut o: Vec<usize> = (0..64).map(|_| rng.below(bytes.len() as u64) as usize).collect(); o.push(bytes.len() - 1); o.sort(); o.dedup(); o };
+    let room = budget.saturating_sub(faults.len()).max(8);
+    if offs.len() > room {
+        let n = offs.len();
+        let mut keep: Vec<usize> = (0..room).map(|i| offs[i * n / room]).collect();
+        keep.push(offs[n - 1]);
+        keep.sort(); keep.dedup();
+        offs = keep;
+    }
+    for n in offs { faults.push(format!("xt:{stamp_now}:{n}")); }
+    for (j, f) in faults.iter().enumerate() {
+        if j >= budget { break; }
+        let mut ops = base.clone();
+        ops.push(f.clone());
+        ops.push(if j % 3 == 2 { format!("bb:{}", rng.below(stamp_now + 1)) } else { "b".into() });
+        // continuation: the vector must still be usable
+        ops.push("p:q.7.1".into());
+        ops.push("w:-".into());
+        let id = next_id(case_no);
+        crate::util::running(&id, &format!("{fmt} {ty} v=2 k={k} {}", ops.join(" ")));
+        emit(&id, fmt, ty, k, &ops);
+    }
+}
+
 fn strip_hints(tok: &str) -> String {
     let p: Vec<&str> = tok.split(':').collect();
     match p[0] {
@@ -1063,7 +1360,7 @@ fn strip_hints(tok: &str) -> String {
 }
 
 fn emit(id: &str, fmt: &str, ty: &str, retention: u16, ops: &[String]) {
-    let mut out = Out { ops: vec![], obs: vec![], viol: vec![], tags: vec![] };
+    let mut out = Out { ops: vec![], obs: vec![], viol: vec![], tags: vec![], record: None };
     let ok = dispatch(fmt, ty, retention, ops, &mut out);
     if !ok {
         println!("I {id} {fmt} {ty} v=2 k={retention} {}", ops.join(" "));
@@ -1096,6 +1393,7 @@ pub fn run(args: &[String]) -> i32 {
             }
             let k: u16 = t[3].strip_prefix("k=").and_then(|x| x.parse().ok()).unwrap_or(0);
             let ops: Vec<String> = t[4..].iter().map(|s| strip_hints(s)).collect();
+            if ops.iter().any(|o| o.starts_with('x')) { crate::util::running(&id, &rest); }
             emit(&id, t[0], t[1], k, &ops);
         }
         return 0;
@@ -1103,6 +1401,21 @@ pub fn run(args: &[String]) -> i32 {
     // --mode hist (retention 0: C07 / C03) | rollback (retention 1..4: C04 / C16) | mixed (default)
     let mode = a.rest.iter().position(|x| x == "--mode").and_then(|i| a.rest.get(i + 1)).map(|s| s.as_str()).unwrap_or("mixed").to_string();
     let mut rng = Rng::new(a.seed);
+    if a.rest.iter().any(|x| x == "--faults") {
+        // fault stream (C16 / C17): families of single-fault cases; all three codecs in rotation, u64 and narrower / wider types
+        let fmts = ["pco", "lz4", "zstd", "pco", "lz4", "zstd", "epco", "elz4", "ezstd"];
+        let mut n: u64 = 0;
+        let mut fam = a.seed as usize;
+        while n < a.cases {
+            let fmt = fmts[fam % fmts.len()];
+            fam += 1;
+            let tys: &[&str] = if fmt.ends_with("pco") { &["u64", "u64", "u32", "u16", "i64", "f64"] } else { &["u64", "u64", "u32", "u16", "u128", "a3"] };
+            let ty = *rng.pick(tys);
+            let budget = ((a.cases - n) as usize).min(700);
+            run_family(fmt, ty, &mut rng, a.seed, &mut n, budget);
+        }
+        return 0;
+    }
     for id in 0..a.cases {
         let rb = match mode.as_str() { "hist" => false, "rollback" => true, _ => rng.chance(35, 100) };
         let (fmt, ty, k, ops) = if rb { gen_rollback_case(&mut rng) } else { gen_case(&mut rng) };
